@@ -601,3 +601,142 @@ def c06(tier, rng, fam='C06'):
             s['fam'] = fam
             out.append(s)
     return out
+
+
+# ------------------------------------------------------------------ C04 -----
+
+KEYCHARS = 'abcdefghijklmnopqrstuvwxyz0123456789-_.'
+
+
+def rnd_key(rng, binary=False):
+    n = rng.randrange(1, 12)
+    k = ''.join(rng.choice(KEYCHARS) for _ in range(n))
+    if k.startswith('grpc-') or k in ('x-verif-call',):
+        k = 'k' + k
+    k = ''.join(ch.upper() if rng.random() < .3 else ch for ch in k)
+    if k.lower().endswith('-bin'):
+        k = k + 'x'
+    return k + ('-bin' if not binary else ('-BIN' if rng.random() < .3 else '-bin')) if binary else k
+
+
+def rnd_val(rng, binary):
+    if not binary:
+        n = rng.randrange(0, 20)
+        return ''.join(chr(rng.randrange(0x20, 0x7f)) for _ in range(n))
+    n = rng.choice([0, 1, 2, 3, 16, 33, 255])
+    special = [0x00, 0xff, 0x0a, 0x2c, 0x3d, 0x80]
+    return '@x:' + ''.join('%02x' % (rng.choice(special) if rng.random() < .3 else rng.randrange(256)) for _ in range(n))
+
+
+def rnd_md(rng, nkeys=None, avoid=()):
+    """a metadata set as a list of [key, value]; no two keys collide after lower-casing"""
+    nkeys = rng.randrange(0, 17) if nkeys is None else nkeys
+    out, seen = [], set(a.lower() for a in avoid)
+    for _ in range(nkeys):
+        binary = rng.random() < .4
+        k = rnd_key(rng, binary)
+        if k.lower() in seen:
+            continue
+        seen.add(k.lower())
+        for _ in range(rng.randrange(1, 5)):
+            out.append([k, rnd_val(rng, binary)])
+    return out
+
+
+def metadata_paths(unary, maxops):
+    """every complete operation sequence of the emission machine, enumerated by TLC (spec/Metadata.tla)"""
+    import re
+    import tempfile
+    from . import core
+    cfg = ('SPECIFICATION Spec\nCONSTANTS Sets = {1, 2}\nMaxOps = %d\nUnary = %s\nPrintPaths = TRUE\n'
+           'INVARIANTS MdOnlyOnFirst FirstCarriesAll HeadersFinal TrailerLast UnaryOneResponse\nCHECK_DEADLOCK FALSE\n'
+           % (maxops, 'TRUE' if unary else 'FALSE'))
+    work = tempfile.mkdtemp(prefix='mdpaths', dir=core.OUT)
+    rc, out = core.tlc('Metadata.tla', cfg, work, workers=1, tag='md')
+    import shutil
+    shutil.rmtree(work, ignore_errors=True)
+    if 'No error has been found' not in out:
+        raise core.Inconclusive('Metadata.tla failed:\n' + out[-2000:])
+    paths = []
+    for seg in re.findall(r'<<\s*"PATH"\s*,(.*?)>>\s*>>', out, re.S):   # TLC wraps long values over several lines
+        p = [(m.group(2), int(m.group(1))) for m in re.finditer(r'\[\s*i\s*\|->\s*(\d+),\s*op\s*\|->\s*"(\w+)"\s*\]', seg)]
+        if not p or p[-1][0] not in ('retok', 'reterr'):
+            raise core.Inconclusive('cannot parse a path printed by Metadata.tla: ' + seg[:200])
+        paths.append(p)
+    if not paths:
+        raise core.Inconclusive('Metadata.tla printed no paths')
+    return paths
+
+
+def c04(tier, rng, fam='C04'):
+    out = []
+    os_ = __import__('os')
+    os_.makedirs('/verif/out', exist_ok=True)
+    maxops = 3 if tier == 'quick' else 4
+    valsets = [
+        {1: [['alpha', 'a1'], ['Mixed-Key', 'v1'], ['bin-key-bin', '@x:00ff10']], 2: [['alpha', 'a2'], ['beta', ''], ['bin-key-bin', '@x:']]},
+        {1: rnd_md(rng, 3), 2: rnd_md(rng, 4)},
+    ]
+    if tier != 'quick':
+        valsets += [{1: rnd_md(rng, 6), 2: rnd_md(rng, 2)} for _ in range(6)]
+
+    def hops(path, vs):
+        ops = []
+        for op, i in path:
+            if op in ('sethdr', 'sendhdr', 'settrl'):
+                ops.append(dict(o=op, md=vs[i]))
+            elif op == 'send':
+                ops.append(dict(o='send', pay='m%d' % len(ops)))
+            elif op == 'retok':
+                ops.append(ret())
+            else:
+                ops.append(ret(code=5, msg='not found'))
+        return ops
+
+    spaths = metadata_paths(False, maxops)
+    upaths = metadata_paths(True, maxops)
+    for vi, vs in enumerate(valsets):
+        sp = spaths if (tier != 'quick' or vi == 0) else rng.sample(spaths, min(200, len(spaths)))
+        for path in sp:
+            kind = 'ss' if sum(1 for o, _ in path if o == 'send') > 1 or rng.random() < .5 else 'bidi'
+            nsend = sum(1 for o, _ in path if o == 'send')
+            b = B(fam, '%s ops %s values#%d' % (kind, ' '.join('%s%s' % (o, i or '') for o, i in path), vi), ser=True)
+            b.step('sopen', c=1, kind=kind, md=rnd_md(rng, 2) if vi else [['req-key', 'rv'], ['req-bin', '@x:0001ff']],
+                   hp=[dict(o='recv'), dict(o='recv')] + hops(path, vs))
+            b.step('send', c=1, pay='x')
+            b.step('close', c=1)
+            b.step('hdr', c=1)
+            b.step('recv', c=1, n=nsend + 1)
+            b.step('trl', c=1)
+            out.append(b.q().done())
+        up = upaths if (tier != 'quick' or vi == 0) else rng.sample(upaths, min(100, len(upaths)))
+        for path in up:
+            b = B(fam, 'unary ops %s values#%d' % (' '.join('%s%s' % (o, i or '') for o, i in path), vi), ser=True)
+            b.step('ucall', c=1, pay='q', md=rnd_md(rng, 2), hp=hops(path, vs)[:-1] + [dict(hops(path, vs)[-1], pay='rep')])
+            out.append(b.q().done())
+    # random metadata sets on every kind: request metadata, headers in the three ways, trailers
+    n = 60 if tier == 'quick' else 1250
+    for r_ in range(n):
+        for kind in ('unary', 'bidi', 'cs', 'ss'):
+            req, h1, h2, t1, t2 = rnd_md(rng), rnd_md(rng, rng.randrange(0, 5)), rnd_md(rng, rng.randrange(0, 5)), rnd_md(rng, rng.randrange(0, 5)), rnd_md(rng, rng.randrange(0, 4))
+            way = rng.choice(['sendhdr', 'firstmsg', 'trailer'])
+            code = rng.choice([0, 0, 7])
+            b = B(fam, '%s random metadata #%d headers via %s code=%d' % (kind, r_, way, code), ser=bool(r_ % 2))
+            hp = [dict(o='sethdr', md=h1)]
+            if kind == 'unary':
+                hp += [dict(o='sendhdr' if way == 'sendhdr' else 'sethdr', md=h2), dict(o='settrl', md=t1), dict(o='settrl', md=t2),
+                       ret(code=code, msg='denied' if code else '', pay='rep')]
+                b.step('ucall', c=1, pay='q', md=req, hp=hp)
+            else:
+                hp = [dict(o='drain')] + hp
+                if way == 'sendhdr':
+                    hp += [dict(o='sendhdr', md=h2), dict(o='send', pay='m0')]
+                elif way == 'firstmsg':
+                    hp += [dict(o='sethdr', md=h2), dict(o='send', pay='m0')]
+                else:
+                    hp += [dict(o='sethdr', md=h2)]
+                hp += [dict(o='settrl', md=t1), dict(o='settrl', md=t2), ret(code=code, msg='denied' if code else '')]
+                b.step('sopen', c=1, kind=kind, md=req, hp=hp)
+                b.step('send', c=1, pay='x').step('close', c=1).step('hdr', c=1).step('recv', c=1, n=2).step('trl', c=1)
+            out.append(b.q().done())
+    return out
